@@ -84,7 +84,8 @@ def run_plan(b, spec, observer=None):
         before = {nm: b.kd[nm] for nm in b.names}
         w0 = len(b.kd.writes)
         try:
-            b.opt.step(call["n"], take_best=call["take_best"], broyden=spec["broyden"], **kw)
+            b.opt.step(call["n"], take_best=call["take_best"], broyden=spec["broyden"], rcond=spec.get("rcond"),
+                       sing_val_cutoff=spec.get("sing_val_cutoff"), **kw)
         except Exception as e:
             if observer:
                 observer(ci, call, before, b.kd.writes[w0:], e)
@@ -97,6 +98,10 @@ def run_plan(b, spec, observer=None):
 def exec_case(ctx, spec):
     n, m = spec["n"], spec["m"]
     classes = {"steps", "weights:" + ("unit" if all(w == 1.0 for w in spec["vweights"]) else "other")}
+    if spec.get("check_limits") is False:
+        classes.add("check_limits=False")
+    if spec.get("rcond") is not None or spec.get("sing_val_cutoff") is not None:
+        classes.add("step(rcond / sing_val_cutoff)")
     rendered = dict(OG.render(spec), plan=spec["plan"])
     state = {"nt": False, "fail": None}
 
@@ -259,7 +264,7 @@ def exec_case(ctx, spec):
 
 
 def run(ctx):
-    drive(ctx, cases(), lambda c: exec_case(ctx, c), ctx.n(400, 4000), salt=1, label="C10")
+    drive(ctx, cases(), lambda c: exec_case(ctx, c), ctx.n(900, 6000), salt=1, label="C10")
 
 
 def replay(ctx, case):
